@@ -142,6 +142,8 @@ func TestC05Sweep(t *testing.T) {
 		cases = append(cases, c05Case{Seq: gen.Seq{Family: "uniform", N: n, Seed: uint64(n)}})
 		cases = append(cases, c05Case{Seq: gen.Seq{Family: "tone", N: n, A: n / 7}})
 	}
+	// one transform beyond 2^24 points in every run (closed-form oracle; about 1 GB, half a minute)
+	cases = append(cases, c05Case{Seq: gen.Seq{Family: "transition", N: 1<<24 + 1, A: 1, Pos: []int{(1<<24 + 1) / 3}}})
 	enumerate(t, "C05", cases, checkC05)
 }
 
